@@ -174,6 +174,40 @@ func journalCase(w *manst.World, r *hx.Rng) {
 	}
 }
 
+// knownWitnesses replays, on the real code, the witnesses of the two refuted full statements of C02
+// (Props/C02.lean: commit_step_is_cas_full_refuted, shortcut_true_on_stale_last).
+func knownWitnesses(e *hx.Env, m *hx.Model, n *int) {
+	cases := []manst.Case{
+		{Mode: "file", Comment: "updateManifest recognises success by newContents.lock == upstream.lock: a commit on a stale last is acknowledged when the same root over the same table set is already installed",
+			Chunks: []manst.ChunkDef{{ID: 1, Size: 20}},
+			Ops: []manst.Op{{Kind: "open", H: 0, Mem: 100}, {Kind: "open", H: 1, Mem: 100}, {Kind: "put", H: 0, A: 1}, {Kind: "put", H: 1, A: 1},
+				{Kind: "commit", H: 0, Cur: 1, Last: 0}, {Kind: "commit", H: 1, Cur: 1, Last: 0}}},
+		{Mode: "file", Comment: "Commit(x, x) with nothing novel returns true without comparing x with the root",
+			Chunks: []manst.ChunkDef{{ID: 1, Size: 20}},
+			Ops: []manst.Op{{Kind: "open", H: 0, Mem: 100}, {Kind: "open", H: 1, Mem: 100}, {Kind: "put", H: 0, A: 1},
+				{Kind: "commit", H: 0, Cur: 1, Last: 0}, {Kind: "commit", H: 1, Cur: 7, Last: 7}}},
+	}
+	known := map[string]bool{"C02/commit-true-root-already-cur": true, "C02/commit-shortcut-true-on-stale-last": true}
+	for i := range cases {
+		before := len(e.Rep.Violations)
+		runCase(e, m, *n, nil, &cases[i])
+		*n++
+		var rest []hx.Violation
+		for j, v := range e.Rep.Violations {
+			if j >= before && known[v.Key] {
+				e.Rep.Known(v.Key, v.What, v.Replay)
+				e.Rep.ViolationsTotal--
+				continue
+			}
+			rest = append(rest, v)
+		}
+		if rest == nil {
+			rest = []hx.Violation{}
+		}
+		e.Rep.Violations = rest
+	}
+}
+
 func main() {
 	e := hx.Init("nbscommit", "C02")
 	defer e.Finish()
@@ -214,6 +248,7 @@ func main() {
 		runCase(e, m, n, nil, &c)
 		return
 	}
+	knownWitnesses(e, m, &n)
 	total := e.N(150, 3000)
 	for i := 0; i < total; i++ {
 		runCase(e, m, n, e.Rng.Fork(), nil)
